@@ -16,12 +16,16 @@ CHECKS = {
             "every observed prefix weight and derivative value equals the reference value"),
     "C04": ("7/C04", "runtime monitoring: p_next / chain-rule / unnormalised next-token weights of the three LM back-ends observed on generated grammars x all short contexts and on 100-300-token strings of linear grammars, judged by exact prefix-weight oracles (rational forward algorithm for long contexts) under hash-seed and tie-break schedules",
             "every observed conditional, chain-rule probability, unnormalised weight and log-weight equals the reference (1e-7 / truncation-scaled tolerance)"),
+    "C05": ("7/C05", "runtime monitoring of histories: random operation sequences (p_next / weight / chart / clear_cache over nested, sibling and repeated prefixes) on 8 kinds of parser / LM objects; every answer compared with a fresh object on a freshly built equal grammar, and state-integrity monitors fingerprint every reachable grammar before/after each operation",
+            "every observed answer of a used object equals the fresh object's answer (1e-9) and no operation changed rules / V / S / N of a reachable grammar"),
     "C06": ("7/C06", "runtime monitoring: every grammar transformation (all options) observed on generated grammars; the reference oracle is evaluated on the input and on the output rule lists for all short strings, over 6 semirings incl. exact Q and free Poly",
             "every observed transformation output assigns every string up to the bound the input's weight"),
     "C07": ("7/C07", "runtime monitoring: structural postcondition monitors (independent shape predicates) on the result of every normal-form call, driven by generated grammars incl. useless-symbol and empty-language classes",
             "every observed normal-form output satisfies the stated shape predicates"),
     "C08": ("7/C08", "runtime monitoring: agenda / naive_bottom_up / treesum / expected_length observed on generated convergent grammars over 9 semirings under native, fifo and random agenda pop orders and several hash seeds, judged by an independent least-fixed-point solver (exact linear solve per SCC, Kleene+Newton otherwise)",
             "every observed total weight equals the reference least solution (exact for idempotent semirings and Q, 1e-9+1e-8 relative otherwise)"),
+    "C20": ("7/C20", "runtime monitoring: locally_normalize and add_EOS observed on generated grammars; per-head sums, treesum, proportionality (reference oracle applied to the output rule list) and EOS placement judged against the reference oracle",
+            "every observed normalised grammar is proper and proportional and every observed EOS-wrapped grammar gives weight(x) to x+EOS and exactly zero to malformed EOS placements"),
 }
 
 LEVEL_NOTE = (
